@@ -28,9 +28,11 @@ REPO = os.environ.get("VERIF_REPO", "/repo")
 B6 = os.path.join(REPO, "src/diagonal.works/b6")
 HARNESS = os.path.join(VERIF, "harness")
 SPEC = os.path.join(VERIF, "spec")
-WORKROOT = os.path.join(VERIF, ".work")
-REPLAYS = os.path.join(VERIF, "replays")
-EVIDENCE = os.path.join(VERIF, "evidence")
+# Overrides (used only for trying the checks on scratch worktrees with seeded changes, in parallel):
+#   VERIF_REPO=<worktree>  VERIF_WORK=<scratch>  VERIF_EVIDENCE=<dir>
+WORKROOT = os.environ.get("VERIF_WORK", os.path.join(VERIF, ".work"))
+REPLAYS = os.environ.get("VERIF_REPLAYS", os.path.join(VERIF, "replays"))
+EVIDENCE = os.environ.get("VERIF_EVIDENCE", os.path.join(VERIF, "evidence"))
 KNOWN = os.path.join(VERIF, "KNOWN_FINDINGS.jsonl")
 TLA_JAR = "/opt/veriftools/tla/tla2tools.jar"
 TLA_CP = TLA_JAR + ":/opt/veriftools/tla/CommunityModules-deps.jar"
@@ -270,6 +272,15 @@ class Ctx:
         out = os.path.join(self.work, "bin", pkg + ("-race" if race else ""))
         os.makedirs(os.path.dirname(out), exist_ok=True)
         cmd = ["go", "build", "-tags", tags, "-o", out]
+        if REPO != "/repo":
+            # scratch worktree: same module, different replace target, via -modfile
+            md = os.path.join(self.work, "gomod")
+            os.makedirs(md, exist_ok=True)
+            gm = open(os.path.join(HARNESS, "go.mod")).read().replace("/repo/src/diagonal.works/b6", B6)
+            with open(os.path.join(md, "go.mod"), "w") as f:
+                f.write(gm)
+            shutil.copy(os.path.join(HARNESS, "go.sum"), os.path.join(md, "go.sum"))
+            cmd.append("-modfile=" + os.path.join(md, "go.mod"))
         if race:
             cmd.append("-race")
         cmd.append("./cmd/" + pkg)
@@ -370,8 +381,10 @@ class Ctx:
                obligations=None, discharged=None):
         known = []
         fixed = []
-        if os.path.exists(KNOWN):
-            for line in open(KNOWN):
+        for kpath in (KNOWN, os.path.join(VERIF, "known", self.prop + ".jsonl")):
+            if not os.path.exists(kpath):
+                continue
+            for line in open(kpath):
                 line = line.strip()
                 if not line or line.startswith("#"):
                     continue
